@@ -55,6 +55,8 @@ impl Clone for RegexCache {
 //@@ item src/processor.rs :: struct InputContext
 //@@ enditem
 
+//@@ item src/processor.rs :: enum ContextKey
+//@@ enditem
 //@@ item src/processor.rs :: struct Context
 //@@ enditem
 
@@ -204,6 +206,18 @@ impl Context {
 //@@ safety C11 C17
 //@@ ret r
 //@@ header-from specs/ctx/new_with_input.spec
+//@@ endfn
+
+//@@ fn ctx.to_list = src/processor.rs :: impl Context :: fn to_list
+//@@ ret r
+//@@ assume
+//@@ header-from specs/ctx/to_list.spec
+//@@ endfn
+
+//@@ fn ctx.key = src/processor.rs :: impl Context :: fn key
+//@@ safety C10
+//@@ ret r
+//@@ header-from specs/ctx/key.spec
 //@@ endfn
 
 //@@ fn ctx.input_context = src/processor.rs :: impl Context :: fn input_context
